@@ -96,7 +96,9 @@ class C07(Property):
         n = 60 if tier == 'quick' else 2000
         for _ in range(n):
             yield {'gen_seed': rng.randrange(10 ** 9), 'op_seed': rng.randrange(10 ** 9),
-                   'opts': {'safe_indices': rng.random() < 0.6, 'n_comps': (1, 3)}}
+                   'opts': dict({'safe_indices': rng.random() < 0.6, 'n_comps': (1, 3)},
+                                **({'dyn_sibling': True, 'auto_ivc_p': 0.5}
+                                   if rng.random() < 0.4 else {}))}
 
     def _md(self, case):
         md = gm.gen_md(random.Random(case['gen_seed']), **case['opts'])
@@ -125,6 +127,9 @@ class C07(Property):
                 phase = 2
                 continue
             t = rng.choice(tg)
+            autos = [x for x in tg if x['kind'].startswith('auto_ivc')]
+            if md.get('dyn_sibling') and autos and rng.random() < 0.5:
+                t = rng.choice(autos)
             shape = t['shape']
             zero_d = bool(t['chain']) and gm.np_positions(t['src_shape'], t['chain'])[1] == []
             if rng.random() < 0.35 or zero_d:
